@@ -728,7 +728,53 @@ def prep_dataflow(ctx):
            n_fix >= 3, f"{n_fix} sign fixes found", pa)
 
 
+def no_cross_call_state(ctx):
+    """PURE-1.  prep_afqmc may be called several times in one process (a mean-field object, then a coupled-cluster object
+    of the same molecule; a scan over geometries).  What it writes must be a function of its arguments alone: no
+    function of the interface modules stores into a module-level container, so nothing computed for one call can leak
+    -- possibly transformed in place by that call -- into the next."""
+    p = ctx.p
+    bad = []
+    n_mod = 0
+    for mname in ("pyscf_interface", "mpi_jax", "run_afqmc"):
+        mod = p.modules.get(mname)
+        if mod is None:
+            continue
+        n_mod += 1
+        mutable = set()
+        for st in mod.tree.body:
+            tgt, val = None, None
+            if isinstance(st, ast.Assign) and len(st.targets) == 1 and isinstance(st.targets[0], ast.Name):
+                tgt, val = st.targets[0].id, st.value
+            elif isinstance(st, ast.AnnAssign) and isinstance(st.target, ast.Name) and st.value is not None:
+                tgt, val = st.target.id, st.value
+            if tgt is None:
+                continue
+            if isinstance(val, (ast.Dict, ast.List, ast.Set)) or (isinstance(val, ast.Call) and (dotted(val.func) or "").split(".")[-1] in (
+                    "dict", "list", "set", "defaultdict", "OrderedDict", "deque")):
+                mutable.add(tgt)
+        if not mutable:
+            continue
+        for fn in ast.walk(mod.tree):
+            if not isinstance(fn, (ast.FunctionDef, ast.AsyncFunctionDef)):
+                continue
+            local = {a.arg for a in fn.args.args + fn.args.kwonlyargs} | {
+                n.id for n in ast.walk(fn) if isinstance(n, ast.Name) and isinstance(n.ctx, ast.Store)}
+            for n in ast.walk(fn):
+                base = None
+                if isinstance(n, ast.Subscript) and isinstance(n.ctx, (ast.Store, ast.Del)) and isinstance(n.value, ast.Name):
+                    base = n.value.id
+                elif isinstance(n, ast.Call) and isinstance(n.func, ast.Attribute) and isinstance(n.func.value, ast.Name) and \
+                        n.func.attr in ("append", "extend", "update", "setdefault", "pop", "clear", "add", "insert", "popitem"):
+                    base = n.func.value.id
+                if base in mutable and base not in local:
+                    bad.append(f"{mname}.{fn.name}:{n.lineno} stores into module-level '{base}'")
+    ctx.ob("PURE-1", "interface modules: no function stores into a module-level container (no state shared between calls)",
+           not bad, "; ".join(bad[:3]) or f"{n_mod} modules scanned", mod="pyscf_interface", line=1)
+
+
 def run(ctx):
+    no_cross_call_state(ctx)
     fcidump(ctx)
     prep_dataflow(ctx)
     npz_files(ctx)
